@@ -3,25 +3,10 @@ from __future__ import annotations
 
 from . import map_rules as mr
 
-EXPLANATION = (
-    "The equality pixel = value of the containing cell is a geometric statement over reals and is NOT decided. Decided are "
-    "necessary conditions: (R1) the kernel is evaluated symbolically: its single store into the output happens only under a "
-    "conjunction of closed containment tests |pixel_a - cell_a| <= half_size, one per available axis, for 1-, 2- and 3-D; "
-    "(R2) parallel-loop write classification: no read-modify-write on shared data inside prange, the plain store is guarded; "
-    "(R3) the pixel index window of a cell is (p -/+ c*half_size*sqrt(ndim) - lower_edge)/spacing with c >= 1, clamped to "
-    "[0, n_axis], the loops/axes/extents are paired and the output is NaN-initialised with shape (layers, nz, ny, nx); "
-    "(R4) limit analysis: every mask that narrows the cell index set in map() is not FALSE when the cell size tends to "
-    "infinity (such a cell contains the whole window); (R5) dependence analysis: each such mask depends on the cell size, "
-    "the window filter also on dx, dy (and dz); (R6) NaN -> mask, slot bookkeeping for vector layers; (R7) one length scale "
-    "for all kernel arguments, axis pairing x<->u, y<->v, z<->n of projections/edges/spacings/pixel positions, half cell size "
-    "passed; (R8) pixel-centre grid formulas as polynomial identities; (R9) for a bare normal the completed in-plane "
-    "vector is orthogonal to it and cannot vanish, and u x (n x u) is parallel to +n.")
-NOT_DECIDED = ("the equality of each pixel with the containing cell's value; soundness/tightness of the numeric coefficients "
-               "(0.6, half diagonal) beyond the limit and dependence conditions; float behaviour on cell faces; vector "
-               "projection values; matplotlib output")
-TRUSTED = ("CPython ast", "numba prange semantics", "osyris operator semantics (Vector - Array broadcasts) as modelled in sa/limits.py")
-TECHNIQUE = ("static analysis: symbolic (polynomial) evaluation of the numba kernel, parallel-loop write classification, "
-             "asymptotic-limit and dependence analyses of the pre-selection masks, formula identities")
+EXPLANATION = '(R1-R3) the numba kernel evaluate_on_grid evaluated symbolically (package helpers inlined): the single store into the output is guarded by full closed containment per axis, the footprint index ranges are conservative and paired with axes/shape, the loop nest above the pixel loops visits every cell exactly once for every thread count (loop BOUNDS evaluated for small sizes), writes inside prange classified; (R4) pre-selection masks of map(): dependence (D4) and large-cell limits (D5) in zero-thickness mode; (R6/R7) map() interpreted over token layers with symbolic numpy values (sa/symnp.py): kernel slots per layer (scalar | u, v, colour), one cell selection for values/coordinates/sizes, each rendered layer made of its own slots and masked by the NaNs of the map, image axes paired with (u,v,n), one length scale, window and resolution per axis, pixel-centre grids; (R9) completion of a bare normal and every string direction (shared with C18); (R10) Layer copies/component views keep options (shared with C19).'
+NOT_DECIDED = "floating-point rounding at cell faces; numba's code generation; what matplotlib draws"
+TRUSTED = ('CPython ast', 'numba prange semantics', 'the interpreter sa/models.py and sa/symnp.py')
+TECHNIQUE = 'static analysis: symbolic evaluation of the kernel, parallel-loop write classification, dependence and limit analyses, abstract interpretation of map() over symbolic numpy values'
 
 from . import map_folds as mf
 
